@@ -435,6 +435,19 @@ void obs_section0(Ctx &c, Node &n, const Section &s, const std::string &where) {
 
 } // namespace
 
+static ObsOpts g_plain_opts;
+#define SINGLE(name, T, body) Node name(const T &e) { Ctx c; c.opt = &g_plain_opts; c.viol = nullptr; c.getters = 0; Node n; body; return n; }
+SINGLE(observe_block, Block, { named_fields(c, n, e); metadata_field(c, n, e); })
+SINGLE(observe_array, DataArray, obs_array(c, n, e, ""))
+SINGLE(observe_frame, DataFrame, obs_frame(c, n, e, ""))
+SINGLE(observe_tag, Tag, obs_tag(c, n, e, ""))
+SINGLE(observe_mtag, MultiTag, obs_mtag(c, n, e, ""))
+SINGLE(observe_group, Group, obs_group(c, n, e, ""))
+SINGLE(observe_source, Source, { named_fields(c, n, e); metadata_field(c, n, e); })
+SINGLE(observe_section, Section, { named_fields(c, n, e); FIELD(n, "repository", opt_s(e.repository())); c.getters++; try { Section l = e.link(); n.add("lnk_link", l ? l.id() : "<none>"); } catch (const std::exception &) { n.add("lnk_link", "<throws>"); }
+    Node &pl = n.sub("properties", true); try { for (auto &p : e.properties()) { Node &k = pl.sub(""); obs_property(c, k, p); } } catch (const std::exception &) { pl.val = "<throws>"; } })
+SINGLE(observe_property, Property, obs_property(c, n, e))
+
 Node observe(const File &b, const ObsOpts &opt, std::vector<std::string> *viol, uint64_t *getters) {
     Ctx c; c.opt = &opt; c.viol = viol; c.getters = 0;
     Node n("file", "");
